@@ -18,3 +18,4 @@ CHECK = {'pkgs': ['core/aggsigdb'],
  'budget_s': {'quick': 300, 'thorough': 1200}}
 CHECK["race_tests"] = {"core/aggsigdb": "TestVerifRaceC17"}
 CHECK["assumptions"] = SCHEDX_ASSUME
+CHECK["claim"] += " Fifth session: duty types that never expire (voluntary exit, builder registration; the harness's deadline function answers like core.NewDutyDeadlineFunc, so the deadliner returns DeadlineExempt): two readers and two writers on two such keys, conflicting writes, write-write-read, both implementations."
